@@ -1,4 +1,185 @@
 package main
 
-func webFacts(repo string)      {}
-func templateFacts(repo string) {}
+import (
+	"fmt"
+	"go/ast"
+	"go/parser"
+	"go/token"
+	"html/template"
+	"io"
+	"path/filepath"
+	"sort"
+	"strconv"
+	"strings"
+	"text/template/parse"
+)
+
+func webFacts(repo string) {}
+
+// templateFacts parses the HTML template (the constant indexHTML of
+// stack/data.go) with html/template itself, lets the contextual escaper rewrite
+// the parse trees (one execution on empty data) and emits, per defined
+// template, every outputting action with the escaper functions html/template
+// appended to it, plus the literal text nodes and the control skeleton.
+func templateFacts(repo string) {
+	fset := token.NewFileSet()
+	f, err := parser.ParseFile(fset, filepath.Join(repo, "stack", "data.go"), nil, 0)
+	if err != nil {
+		die("parse data.go: %v", err)
+	}
+	src, found := "", false
+	ast.Inspect(f, func(n ast.Node) bool {
+		if vs, ok := n.(*ast.ValueSpec); ok && len(vs.Names) == 1 && vs.Names[0].Name == "indexHTML" && len(vs.Values) == 1 {
+			if l, ok := vs.Values[0].(*ast.BasicLit); ok && l.Kind == token.STRING {
+				if s, err := strconv.Unquote(l.Value); err == nil {
+					src, found = s, true
+				}
+			}
+		}
+		return true
+	})
+	if !found {
+		die("constant indexHTML not found in stack/data.go")
+	}
+	// which template package does html.go use, and which functions does it register
+	hf, err := parser.ParseFile(fset, filepath.Join(repo, "stack", "html.go"), nil, 0)
+	if err != nil {
+		die("parse html.go: %v", err)
+	}
+	var tplImports []string
+	for _, im := range hf.Imports {
+		p, _ := strconv.Unquote(im.Path.Value)
+		if strings.HasSuffix(p, "/template") {
+			tplImports = append(tplImports, p)
+		}
+	}
+	var funcNames []string
+	ast.Inspect(hf, func(n ast.Node) bool {
+		cl, ok := n.(*ast.CompositeLit)
+		if !ok {
+			return true
+		}
+		if se, ok := cl.Type.(*ast.SelectorExpr); !ok || se.Sel.Name != "FuncMap" {
+			return true
+		}
+		for _, e := range cl.Elts {
+			if kv, ok := e.(*ast.KeyValueExpr); ok {
+				if l, ok := kv.Key.(*ast.BasicLit); ok {
+					s, _ := strconv.Unquote(l.Value)
+					fn := ""
+					if id, ok := kv.Value.(*ast.Ident); ok {
+						fn = id.Name
+					}
+					funcNames = append(funcNames, s+"="+fn)
+				}
+			}
+		}
+		return true
+	})
+	sort.Strings(funcNames)
+	stub := func(...interface{}) string { return "" }
+	fm := template.FuncMap{}
+	for _, n := range funcNames {
+		fm[strings.SplitN(n, "=", 2)[0]] = stub
+	}
+	t, err := template.New("t").Funcs(fm).Parse(src)
+	if err != nil {
+		die("template parse: %v", err)
+	}
+	_ = t.Execute(io.Discard, map[string]interface{}{}) // the error (if any) is irrelevant: escaping happens first
+	var tpls []*template.Template
+	for _, tt := range t.Templates() {
+		if tt.Tree != nil {
+			tpls = append(tpls, tt)
+		}
+	}
+	sort.Slice(tpls, func(i, j int) bool { return tpls[i].Name() < tpls[j].Name() })
+
+	const pfx = "_html_template_"
+	var holes, skel, names, texts, longTexts []string
+	for _, tt := range tpls {
+		names = append(names, tt.Name())
+		var walk func(n parse.Node, d int)
+		textNo := 0
+		line := func(d int, s string) {
+			skel = append(skel, fmt.Sprintf("(%s, %d, %s)", leanStr(tt.Name()), d, leanStr(s)))
+		}
+		walk = func(n parse.Node, d int) {
+			switch x := n.(type) {
+			case *parse.ListNode:
+				if x == nil {
+					return
+				}
+				for _, c := range x.Nodes {
+					walk(c, d)
+				}
+			case *parse.ActionNode:
+				if len(x.Pipe.Decl) != 0 {
+					line(d, "SET "+x.Pipe.String())
+					return
+				}
+				var plain, esc []string
+				for _, c := range x.Pipe.Cmds {
+					s := c.String()
+					if strings.HasPrefix(s, pfx) {
+						esc = append(esc, s)
+					} else {
+						if len(esc) != 0 {
+							die("escaper before a user command in %s", x.Pipe.String())
+						}
+						plain = append(plain, s)
+					}
+				}
+				p := strings.Join(plain, " | ")
+				holes = append(holes, fmt.Sprintf("(%s, %s, [%s])", leanStr(tt.Name()), leanStr(p), quoteAll(esc)))
+				line(d, "HOLE "+p)
+			case *parse.TextNode:
+				line(d, fmt.Sprintf("TEXT %d", textNo))
+				if len(x.Text) <= 120 {
+					texts = append(texts, fmt.Sprintf("(%s, %d, %s)", leanStr(tt.Name()), textNo, leanBytes(string(x.Text))))
+				} else {
+					longTexts = append(longTexts, fmt.Sprintf("(%s, %d, %d)", leanStr(tt.Name()), textNo, len(x.Text)))
+				}
+				textNo++
+			case *parse.IfNode:
+				line(d, "IF "+x.Pipe.String())
+				walk(x.List, d+1)
+				if x.ElseList != nil {
+					line(d, "ELSE")
+					walk(x.ElseList, d+1)
+				}
+			case *parse.RangeNode:
+				line(d, "RANGE "+x.Pipe.String())
+				walk(x.List, d+1)
+				if x.ElseList != nil {
+					line(d, "ELSE")
+					walk(x.ElseList, d+1)
+				}
+			case *parse.WithNode:
+				line(d, "WITH "+x.Pipe.String())
+				walk(x.List, d+1)
+				if x.ElseList != nil {
+					line(d, "ELSE")
+					walk(x.ElseList, d+1)
+				}
+			case *parse.TemplateNode:
+				p := ""
+				if x.Pipe != nil {
+					p = x.Pipe.String()
+				}
+				line(d, "TEMPLATE "+x.Name+" "+p)
+			case *parse.CommentNode:
+			default:
+				line(d, fmt.Sprintf("OTHER %T %s", n, n.String()))
+			}
+		}
+		walk(tt.Tree.Root, 0)
+	}
+	fmt.Fprintf(&out, "/-- template package(s) imported by stack/html.go -/\ndef htmlTemplateImports : List String := [%s]\n", quoteAll(tplImports))
+	fmt.Fprintf(&out, "/-- entries of the template.FuncMap of toHTML, as name=function -/\ndef htmlFuncMap : List String := [%s]\n", quoteAll(funcNames))
+	fmt.Fprintf(&out, "/-- templates defined by indexHTML after contextual escaping -/\ndef templateNames : List String := [%s]\n", quoteAll(names))
+	fmt.Fprintf(&out, "/-- every outputting action of indexHTML: (template, pipeline as written, escapers appended by html/template) -/\ndef templateHoles : List (String × String × List String) := [\n  %s]\n", strings.Join(holes, ",\n  "))
+	fmt.Fprintf(&out, "/-- literal text nodes (after trimming) of at most 120 bytes: (template, ordinal among the template's text nodes, bytes) -/\ndef templateTexts : List (String × Nat × List UInt8) := [\n  %s]\n", strings.Join(texts, ",\n  "))
+	fmt.Fprintf(&out, "/-- longer text nodes (style sheet, legend): (template, ordinal, length) -/\ndef templateLongTexts : List (String × Nat × Nat) := [%s]\n", strings.Join(longTexts, ", "))
+	fmt.Fprintf(&out, "/-- the escaped parse trees, flattened: (template, depth, node) -/\ndef templateSkeleton : List (String × Nat × String) := [\n  %s]\n\n", strings.Join(skel, ",\n  "))
+}
